@@ -386,7 +386,7 @@ var (
 	nMixed = st("Mixed", -1, 0, f("S", sl(nU16, 1, 0, 4)), f("M", mp(nU16, nU16, 1, 0, 4)), f("P", str(1, 0, 0)), f("Q", str(2, 0, 0)))
 	nJDeep = st("JDeep", -1, 0, f("MSl", mp(nName, sl(nU16, 1, 0, 0), 1, 0, 0)), f("MMp", mp(nName, nDict, 1, 0, 0)),
 		f("MSt", mp(nName, nPoly, 1, 0, 0)), f("OptZ", ptr(nRect)))
-	nTrio  = st("Trio", -1, 0, f("Arr", &node{kind: kArray, name: "array", n: 3, elem: nU16, prefix: 1, code: -1}))
+	nTrio = st("Trio", -1, 0, f("Arr", &node{kind: kArray, name: "array", n: 3, elem: nU16, prefix: 1, code: -1}))
 
 	nCustom = &node{kind: kCustom, name: "Custom", code: 0x33, codeW: 1}
 	nCust   = st("Cust", -1, 0, f("Pre", nU8), f("C", nCustom), opt("PC", ptr(nCustom)), f("Cs", sl(nCustom, 1, 0, 3)))
